@@ -11,6 +11,8 @@ CONSTANTS
   WithClose = TRUE
   QueueGuardedClose = FALSE
   AtomicExpiry = TRUE
+  LeaverPolls = FALSE
+  NotifyFirst = FALSE
   NotifyOnExit = "panic"
 INVARIANTS Inv_AtMostOnce Inv_RejectedNeverRun Inv_MaxConcurrent Inv_Counts Inv_HandlerOnlyJobPanics
 CHECK_DEADLOCK FALSE
